@@ -38,6 +38,9 @@ def gen(rng, k):
     p = {"ref": ref, "L": L, "t": t, "noise": [0.0, 0.5][k % 2],
          "center": None if k % 3 == 0 else rng.uniform(-40, 40, 2),
          "w": None if k % 4 == 0 else rng.uniform(0.1, 10, n), "seed": int(rng.integers(1 << 30))}
+    if (k // 7) % 3 == 2 and p["center"] is not None:
+        # a centre far from the points compared with their spread (e.g. a detector corner as the origin)
+        p["center"] = (np.asarray(p["center"]) + rng.choice([-1, 1], 2) * rng.uniform(1.5e4, 3e4, 2))
     if p["w"] is not None and (k // 3) % 4 == 3:
         # the same relative weights at a tiny / huge overall magnitude (a common factor does not change the optimum)
         p["w"] = p["w"] * float(rng.choice([1e-9, 1e-12, 1e6]))
